@@ -18,6 +18,9 @@ UnitV     == EnumV("Unit", FALSE, NoPayload)
 BoolV(b)  == EnumV(IF b THEN "True" ELSE "False", FALSE, NoPayload)
 SomeV(v)  == EnumV("Some", TRUE, v)
 NoneV     == EnumV("None", FALSE, NoPayload)
+\* A struct value: its type name and a value per field, in the order the literal listed them (which is
+\* the order it is printed in, and which equality ignores).
+StructV(name, fs) == [k |-> "Struct", n |-> name, fs |-> fs]     \* fs: sequence of [n |-> field, v |-> value]
 CloV(ps, b, env, rt, line) == [k |-> "Clo", ps |-> ps, b |-> b, env |-> env, rt |-> rt, line |-> line]
 FunV(name) == [k |-> "Fun", n |-> name]
 
@@ -43,6 +46,9 @@ ValEq(a, b) ==
               IF a.n # b.n \/ a.has # b.has THEN FALSE
               ELSE IF a.has THEN ValEq(a.p, b.p) ELSE TRUE
          [] a.k = "None" -> TRUE
+         [] a.k = "Struct" ->
+              a.n = b.n /\ Len(a.fs) = Len(b.fs)
+              /\ \A i \in 1..Len(a.fs) : \E j \in 1..Len(b.fs) : a.fs[i].n = b.fs[j].n /\ ValEq(a.fs[i].v, b.fs[j].v)
          [] OTHER -> FALSE   \* closures and function references: never equal here
 
 (* Printed form (Value::display / string_repr).  Strings here are plain:    *)
@@ -50,9 +56,13 @@ ValEq(a, b) ==
 (* character sequences.                                                     *)
 RECURSIVE Disp(_)
 RECURSIVE DispSeq(_, _)
+RECURSIVE DispFields(_, _)
 DispSeq(xs, i) ==
   IF i > Len(xs) THEN ""
   ELSE Disp(xs[i]) \o (IF i < Len(xs) THEN ", " \o DispSeq(xs, i + 1) ELSE "")
+DispFields(fs, i) ==
+  IF i > Len(fs) THEN ""
+  ELSE fs[i].n \o ": " \o Disp(fs[i].v) \o (IF i < Len(fs) THEN ", " \o DispFields(fs, i + 1) ELSE "")
 Disp(v) ==
   CASE v.k = "Int"   -> ToString(v.v)
     [] v.k = "Str"   -> "\"" \o v.v \o "\""
@@ -60,6 +70,7 @@ Disp(v) ==
     [] v.k = "Tuple" -> IF Len(v.v) = 1 THEN "(" \o Disp(v.v[1]) \o ",)"
                         ELSE "(" \o DispSeq(v.v, 1) \o ")"
     [] v.k = "Enum"  -> IF v.has THEN v.n \o "(" \o Disp(v.p) \o ")" ELSE v.n
+    [] v.k = "Struct" -> v.n \o "{ " \o DispFields(v.fs, 1) \o " }"
     [] OTHER         -> "<fun>"
 
 (* Integer arithmetic on mathematical integers, guarded by a magnitude      *)
